@@ -254,6 +254,9 @@ def contains(eng, container: V, item: V, st):
         if isinstance(item, UnionV) or fits(item, container.elem):
             return z3.Contains(container.t, z3.Unit(box(item, container.elem)))
         return z3.BoolVal(False)
+    if isinstance(item, UnionV) and isinstance(container, (DictV, SetV, ListV)):
+        # an Optional / union item: decide per alternative (None is never equal to a str key, etc.)
+        return Or(*[And(g, contains(eng, container, a, st)) for g, a in item.alts])
     if isinstance(container, DictV):
         if fits(item, container.kk):
             return z3.Contains(container.keys, z3.Unit(box(item, container.kk)))
@@ -1133,16 +1136,25 @@ def _comp_symbolic(eng, st, e, gen, it, kind):
     if gen.ifs:
         # filtered comprehension over a symbolic sequence: over-approximated by an unconstrained list of the
         # element kind, no longer than the source (sound for postconditions: nothing about its content is known)
-        if not (isinstance(it, ListV) and isinstance(gen.target, ast.Name)):
+        from . import loops as _loops
+
+        view = _loops.iter_view(eng, st, it) if not isinstance(it, ListV) else None
+        if isinstance(it, ListV):
+            sample, n_src = fresh(it.elem, "cx"), z3.Length(it.t)
+        elif view is not None and view.item is not None:
+            sample, n_src = view.item(z3.FreshConst(z3.IntSort(), "cxi")), view.length
+        else:
             raise Unsupported("filtered comprehension over " + type(it).__name__)
-        probe = st.bind(gen.target.id, fresh(it.elem, "cx"))
-        res = [r for r in eng.eval(e.elt, probe) if not isinstance(r[1], RaiseV)]
+        probes = [oc.state for oc in eng.assign(gen.target, sample, st) if oc.kind == "normal"]
+        if not probes:
+            raise Unsupported("comprehension target")
+        res = [r for r in eng.eval(e.elt, probes[0]) if not isinstance(r[1], RaiseV)]
         if not res:
             raise Unsupported("comprehension body always raises")
         ek = res[0][1].kind
         r = z3.FreshConst(z3.SeqSort(ek.sort()), "fcomp")
         eng.trusted_used.add("filtered comprehension over a symbolic list: over-approximated (unconstrained result)")
-        return [(st.assume(z3.Length(r) <= z3.Length(it.t)), ListV(ek, r))]
+        return [(st.assume(z3.Length(r) <= n_src), ListV(ek, r))]
     if isinstance(it, RangeV):
         n = it.length()
         k = z3.FreshConst(z3.IntSort(), "ci")
